@@ -78,19 +78,19 @@ LANGS = ["en", "EN", "en-US", "en-us", "de", "fr-CA", "zh-Hant-TW", "x-priv", "s
 # (lexical forms here are ones that rdflib's normalisation maps to themselves; checked in self-test of c03)
 TYPED_CANON = [
     ("integer", ["0", "1", "-1", "42", "123456789012345678901234567890", "-7"]),
-    ("decimal", ["0.0", "1.5", "-1.5", "0.1", "123.456", "100.0"]),
-    ("double", ["0.0E0", "1.0E0", "-1.5E0", "1.0E10", "1.0E-7", "INF", "-INF", "NaN"]),
-    ("float", ["0.0E0", "1.0E0", "2.5E0"]),
+    ("decimal", ["0.0", "1.5", "-1.5", "0.1", "123.456", "100.0", "1", "0", "-0.0", "1.000"]),
+    ("double", ["0.0", "1.0", "-1.5", "10000000000.0", "1e-07", "inf", "-inf", "nan", "1.2345678901234568e+18", "10000001.0", "0.1"]),
+    ("float", ["0.0", "1.0", "2.5"]),
     ("boolean", ["true", "false"]),
     ("string", ["", "a", "a b", "x\"y"]),
-    ("dateTime", ["2000-01-01T00:00:00", "2024-02-29T23:59:59Z", "1999-12-31T12:00:00+05:30", "2000-01-01T00:00:00.500000"]),
+    ("dateTime", ["2000-01-01T00:00:00", "2024-02-29T23:59:59+00:00", "1999-12-31T12:00:00+05:30", "2000-01-01T00:00:00.500000"]),
     ("date", ["2000-01-01", "2024-02-29"]),
-    ("time", ["00:00:00", "23:59:59", "12:00:00Z"]),
+    ("time", ["00:00:00", "23:59:59", "12:00:00+00:00"]),
     ("duration", ["P1D", "PT1H", "P1Y2M3DT4H5M6S", "-P1D"]),
     ("gYear", ["2000", "1999"]),
     ("gYearMonth", ["2000-01"]),
     ("anyURI", ["http://ex.org/", "urn:x"]),
-    ("hexBinary", ["", "0F", "DEADBEEF"]),
+    ("hexBinary", ["", "0f", "deadbeef"]),
     ("base64Binary", ["", "YQ==", "YWJj"]),
     ("long", ["0", "9223372036854775807"]),
     ("int", ["0", "-2147483648"]),
@@ -100,12 +100,12 @@ TYPED_CANON = [
 ]
 # non-canonical but valid forms; round-trip compares through canonical()
 TYPED_NONCANON = [
-    ("integer", ["+1", "007", "-0", "00"]), ("decimal", ["1", "0", "+1.50", ".5", "5.", "-0.0", "1.000"]),
-    ("double", ["1", "1.5", "1e0", "1E5", "-.5e-3", "+1.0E+1", "10000001.0", "1.2345678901234567E18", "0.1"]),
-    ("float", ["1", "1.5e0"]), ("boolean", ["1", "0"]),
-    ("dateTime", ["2000-01-01T00:00:00.5", "2000-01-01T24:00:00", "2000-01-01T00:00:00+00:00"]),
-    ("date", ["2000-01-01Z", "2000-01-01+05:00"]),
-    ("hexBinary", ["0f"]), ("base64Binary", ["YQ = ="]),
+    ("integer", ["+1", "007", "-0", "00"]), ("decimal", ["+1.50", ".5", "5."]),
+    ("double", ["1", "1e0", "1E5", "-.5e-3", "+1.0E+1", "1.2345678901234567E18", "0.0E0", "1.0E0", "1.0E-7", "INF", "-INF", "NaN"]),
+    ("float", ["1", "1.5e0", "2.5E0"]), ("boolean", ["1", "0"]),
+    ("dateTime", ["2000-01-01T00:00:00.5", "2024-02-29T23:59:59Z"]),
+    ("time", ["12:00:00Z"]),
+    ("hexBinary", ["0F", "DEADBEEF"]), ("base64Binary", ["YQ = ="]),
 ]
 TYPED_INVALID = [
     ("integer", ["", "abc", "1.0", " 1 ", "1e2"]), ("decimal", ["1e2", "abc", ""]), ("double", ["abc", "", "1.0.0"]),
